@@ -348,6 +348,7 @@ def sigma_typed(T, params='iI', local_groups=((1, 'f'), (2, 'F'), (1, 'i'))):
     S.append(Sym('drop', 'drop', enc=DROP))
     S.append(Sym('select', 'select', enc=SELECT))
     S.append(Sym('block(%s)' % T, 'block', arg=T, enc=block(T)))
+    S.append(Sym('block(i32)', 'block', arg='i', enc=block('i')))      # a construct with ANOTHER non-empty result type, to be nested in / around the T-typed ones
     S.append(Sym('if(%s)' % T, 'if', arg=T, enc=if_(T)))
     S.append(Sym('loop(%s)' % T, 'loop', arg=T, enc=loop(T)))
     S.append(Sym('else', 'else', enc=ELSE))
